@@ -101,6 +101,10 @@ delta_read!(c10_delta_values_w3, c10_delta_resume_w3, 3, 4, 2);
 // @h name=c10_delta_values_w8 props=C10 tier=thorough
 // @h name=c10_delta_resume_w8 props=C10 tier=thorough
 delta_read!(c10_delta_values_w8, c10_delta_resume_w8, 8, 4, 1);
+// an empty first read (the first slice of an optional column is all NULL) must not consume the header's first value
+// @h name=c10_delta_values_w3_k0 props=C10 tier=thorough
+// @h name=c10_delta_resume_w3_k0 props=C10 tier=quick
+delta_read!(c10_delta_values_w3_k0, c10_delta_resume_w3_k0, 3, 3, 0);
 // @h name=c10_delta_values_w0 props=C10 tier=thorough
 // @h name=c10_delta_resume_w0 props=C10 tier=thorough
 delta_read!(c10_delta_values_w0, c10_delta_resume_w0, 0, 3, 2);
